@@ -82,7 +82,7 @@ def minimize_variance_value(sv, X):
     return (X ** 2 @ (sv.Ap ** 2).T).sum(axis=-1)
 
 
-def compare(proc, sv, B, W, ref, got, tol, label):
+def compare(proc, sv, B, W, ref, got, tol, label, call_objective=0.0):
     Xr, Br = ref
     Xg, Bg = got
     check(Xg.shape == Xr.shape and Bg.shape == Br.shape, f"{label}:shape", f"shapes {Xg.shape}/{Bg.shape} vs {Xr.shape}/{Br.shape}")
@@ -97,7 +97,7 @@ def compare(proc, sv, B, W, ref, got, tol, label):
             # the solver's accuracy (1e-9) is relative to the objective of the whole stacked problem: a far out-of-gamut row in
             # the batch (residual ~100 capture units) leaves an objective gap of 1e-9 * 1e4, i.e. a prediction error of sqrt(gap)
             Wm_ = np.ones_like(B) if W is None else np.broadcast_to(np.asarray(W, dtype=float), B.shape)
-            tol = max(tol, 3.0 * float(np.sqrt(1e-9 * (1.0 + np.sum((Wm_ * (Br - B)) ** 2)))))
+            tol = max(tol, 3.0 * float(np.sqrt(1e-9 * (1.0 + max(float(np.sum((Wm_ * (Br - B)) ** 2)), call_objective)))))
         check(np.all(err <= tol), f"{label}:prediction-differs",
               f"{proc}: predicted captures differ from the batch_size=1 result by {err.max():.3g} (tol {float(np.min(tol)):.3g}); row {int(np.argmax(err.max(axis=1)))}",
               observed=dict(ref=Br.tolist(), got=Bg.tolist()))
@@ -191,6 +191,8 @@ def rows_strategy(draw, sysd, n, nonneg=True):
         b = sv.predict(sv.lb + u * sv.range)
         if draw(st.booleans()):
             b = sv.basep + (b - sv.basep) * draw(st.floats(1.3, 4.0)) + np.asarray(draw(gens.array((sv.m,), 0.0, 0.5, styles=("raw",)))) * sv.extent
+        if draw(st.integers(0, 5)) == 0:
+            b = sv.basep.copy()              # a dark frame: exactly the baseline, nothing to add (with lb > 0 still not "all sources off")
         rows.append((np.maximum(b, 0.0) if nonneg else b).tolist())
     return rows
 
@@ -198,7 +200,7 @@ def rows_strategy(draw, sysd, n, nonneg=True):
 @st.composite
 def gen_case(draw):
     proc = draw(st.sampled_from(["gaussian", "gaussian", "gaussian", "poisson", "poisson", "minimize", "minimize", "minimize", "excitation"]))
-    sysd = draw(matrix_system(m=(2, 4), n=(1, 5), ub_kinds=("finite",), lb_kinds=("zero",),
+    sysd = draw(matrix_system(m=(2, 4), n=(1, 5), ub_kinds=("finite",), lb_kinds=("zero", "zero", "pos"),
                               K_kinds=("none", "scalar", "vector"), base_kinds=("none", "scalar", "vector")))
     n = draw(st.integers(1, 5))
     rows = draw(rows_strategy(sysd, n))
@@ -272,7 +274,10 @@ def body_gen(case):
         except Exception as e:
             sfx = ":explicit-solver-unconverged" if (type(e).__name__ == "SolverError" and "solver" in opt) else ""
             raise Violation(f"gen:reference-exception:{type(e).__name__}{sfx}", f"{proc} on a single row raised {type(e).__name__}: {str(e)[:200]}")
-        compare(proc, sv, B2[-1:], None if W2 is None else W2[-1:], alone, (got[0][-1:], got[1][-1:]), tol, "gen:alone")
+        # (the accuracy of the row inside the call is the one of the whole call: its objective includes the other rows' residuals)
+        Wc_ = np.ones_like(B2) if W2 is None else np.asarray(W2, dtype=float)
+        compare(proc, sv, B2[-1:], None if W2 is None else W2[-1:], alone, (got[0][-1:], got[1][-1:]), tol, "gen:alone",
+                call_objective=float(np.sum((Wc_ * (np.asarray(got[1], dtype=float) - B2)) ** 2)))
     labs = sv.labels() + [proc, f"op:{op}", "W" if W is not None else "noW", f"layout:{case.get('layout')}", f"entry:{entry}", f"verbose:{vb}"]
     m = B2.shape[0]
     bsi = m if bs == "full" else (1 if bs is None else bs)
@@ -284,6 +289,8 @@ def body_gen(case):
         labs.append("nt:dividing-batch")
     if op != "none":
         labs.append("nt:row-operation")
+    if np.any(np.all(B == sv.basep, axis=1)):
+        labs.append("dark-row")
     return labs
 
 
